@@ -39,6 +39,51 @@ pub fn test_case(ctx: &Ctx, c: &CleanCase, stats: &mut Stats) -> Result<(), Stri
             if let Some(m) = history::describe_abnormal(&obs) { return Err(format!("prefix: {}", m)); }
         }
     }
+    // first clause of C10 from ANY state (targets may be missing, stale or tampered): on a fork, clean and look
+    {
+        let mut f = w.fork();
+        let g0 = f.goal_path(c.clean_goal);
+        let scope0 = f.model.scope(g0.as_deref());
+        let before0 = f.sys.snapshot();
+        let cl = f.invoke(Inv::Clean(g0.clone()), &history::sched_for(c.sched_seed, 7), None);
+        if let Some(m) = history::describe_abnormal(&cl) { return Err(format!("clean from an arbitrary state: {}", m)); }
+        if cl.ok()
+        {
+            let cache0 = engine::cache_entries(&cl.post);
+            let mut some_missing = false;
+            let mut some_present = false;
+            for (i, r) in f.model.rules.iter().enumerate()
+            {
+                if !scope0[i] { continue; }
+                for t in r.targets.iter()
+                {
+                    if cl.post.contains_key(t)
+                    {
+                        return Err(format!("after clean (goal {:?}, from a state where not every target exists) the in-scope target {} still exists", g0, t));
+                    }
+                    match before0.get(t)
+                    {
+                        Some(prev) =>
+                        {
+                            some_present = true;
+                            match cache0.get(&b62::name_of(&prev.data))
+                            {
+                                Some(d) if *d == prev.data => {}
+                                _ => return Err(format!("after clean the previous content of {} is not in the cache under its hash", t)),
+                            }
+                        }
+                        None => some_missing = true,
+                    }
+                }
+            }
+            if some_missing && some_present { stats.class("clean-with-some-targets-already-missing"); }
+            audits::check_c09(&f, &cl)?;
+        }
+        else
+        {
+            return Err(format!("clean failed: {:?}", cl.result));
+        }
+    }
     // the state before the clean: a successful full build
     let full = w.invoke(Inv::Build(None), &history::sched_for(c.sched_seed, 1), None);
     if let Some(m) = history::describe_abnormal(&full) { return Err(format!("full build: {}", m)); }
